@@ -2013,7 +2013,21 @@ func (c *Conn) legacyReplayMarker(header *recordlayer.Header) (func() bool, bool
 		return nil, false
 	}
 
-	return markPacketAsValid, true
+	epoch, sequenceNumber := header.Epoch, header.SequenceNumber
+
+	return func() bool {
+		latest := markPacketAsValid()
+		// The replay detector reports record number 0 as the latest one even
+		// after newer records of the epoch were accepted.
+		if latest && sequenceNumber == 0 && c.highestRemoteSequenceNumber(epoch) > 0 {
+			latest = false
+		}
+		if latest {
+			c.updateRemoteSequenceNumber(epoch, sequenceNumber)
+		}
+
+		return latest
+	}, true
 }
 
 func (c *Conn) decryptLegacyPacket(
